@@ -7,9 +7,24 @@ pats = sorted(glob.glob(V + "/seeded/*/*/patch.diff")) + sorted(glob.glob(V + "/
 pats = [p for p in pats if "/_residual/" not in p]       # known false-alarm shapes, kept as a record (DESIGN §19)
 if len(sys.argv) > 1:
     pats = [p for p in pats if any(a in p for a in sys.argv[1:])]
-subprocess.run([sys.executable, V + "/tools/seedscan.py"] + pats, stdout=subprocess.DEVNULL, stderr=subprocess.DEVNULL,
-               env=dict(os.environ, SEEDSCAN_RELEVANT="1"))
-res = json.load(open("/tmp/seedscan.json"))
+# shards run side by side (extraction is serialised by the target-directory lock, the analysis is not); each shard
+# writes its own result file under a private directory, so two regress runs do not overwrite each other
+import tempfile
+jobs = max(1, min(int(os.environ.get("REGRESS_JOBS", "5")), len(pats) or 1))
+outdir = tempfile.mkdtemp(prefix="trlint-regress-")
+procs = []
+for k in range(jobs):
+    shard = pats[k::jobs]
+    if shard:
+        procs.append(subprocess.Popen([sys.executable, V + "/tools/seedscan.py"] + shard, stdout=subprocess.DEVNULL, stderr=subprocess.DEVNULL,
+                                      env=dict(os.environ, SEEDSCAN_RELEVANT="1", SEEDSCAN_OUT=os.path.join(outdir, "scan_%d.json" % k))))
+for pr in procs:
+    pr.wait()
+res = {}
+for f in glob.glob(os.path.join(outdir, "scan_*.json")):
+    res.update(json.load(open(f)))
+json.dump(res, open(os.path.join(outdir, "all.json"), "w"), indent=1)
+print("results in %s/all.json" % outdir)
 bad = 0
 for p in pats:
     r = res.get(p, {})
